@@ -553,9 +553,9 @@ fn check_log(case: &SchedCase, events: &[Event]) -> Vec<(String, Value)> {
     bad
 }
 
-const CLASSES: [&str; 16] = [
+const CLASSES: [&str; 18] = [
     "disjoint", "nested-later-inside", "nested-earlier-inside", "equal", "partial-overlap", "newest-covers-all", "first-fails", "middle-fails", "last-fails", "same-position-growing", "same-position-shrinking",
-    "mixed", "newest-covers-first-only", "newest-covers-second-only", "aspect-older-sticks-out-below", "aspect-newer-covers-older",
+    "mixed", "newest-covers-first-only", "newest-covers-second-only", "aspect-older-sticks-out-below", "aspect-newer-covers-older", "same-cells-shrinking", "cells-inside-pixels-outside",
 ];
 
 fn geometry(class: &str, k: usize, rng: &mut Rng) -> Vec<Img> {
@@ -598,6 +598,16 @@ fn geometry(class: &str, k: usize, rng: &mut Rng) -> Vec<Img> {
                     Img { x: 0, y: 0, w: 48, h: 30, fails: false, aspect: None }
                 } else {
                     Img { x: 1 + 2 * i32_, y: 1, w: 10, h: 12, fails: false, aspect: if i % 2 == 0 { Some((0, 0)) } else { Some((5, 3)) } }
+                }
+            }
+            // covering is a matter of pixels, not of character cells: images that occupy the same cells but shrink by a few
+            // pixels each time all stay; an older image whose cells lie inside the newer one's while its pixels stick out stays
+            "same-cells-shrinking" => Img { x: 2, y: 1, w: 15 - 3 * i32_, h: 14 - 3 * i32_, fails: false, aspect: None },
+            "cells-inside-pixels-outside" => {
+                if i + 1 == k {
+                    Img { x: 0, y: 0, w: 12 + 16 * (k as i32 - 2).max(0), h: 20, fails: false, aspect: None }
+                } else {
+                    Img { x: 1 + 2 * i32_, y: 0, w: 7, h: 30, fails: false, aspect: None }
                 }
             }
             "first-fails" => Img { x: 6 * i32_, y: 0, w: 16, h: 12, fails: i == 0, aspect: None },
@@ -805,7 +815,7 @@ impl Prop for C14 {
         "C14"
     }
     fn rule(&self) -> &'static str {
-        "(payload) seeded sixel payloads over data characters, '!' repeats <= 500, '$', '-', '#' selects and RGB/HLS definitions, raster attributes smaller/equal/larger than the data, rows of unequal length: Sixel::parse_from must give picture_data.len()==width*height*4, and with a 4-parameter raster the declared height and (when no drawn pixel lies beyond it) width; with a 3-parameter raster the one declared extent must be honoured as height (the engine's reading) or as minimum width (the DEC manual's). (schedule) k<=4 real DCS sixel sequences are fed through the real ANSI parser; every decode thread blocks in the gate hook; for every completion order (k!) x every placement of update_sixel_threads polls (2^k) x 16 geometry classes (two of them with images of other pixel aspects than 1:1 - the renderer does not stretch them, what is on the screen is the pixel rectangle) - in every third schedule the last sequences arrive only after the first release has finished - the harness releases one decode at a time, waits for is_finished, optionally polls (on a helper thread; all decoders it could wait for are held by the harness, so not returning within 6 s but returning once the gates open = blocked; after 3 blocked polls a worker skips its remaining schedules), records (step, released, polled, result, queue length, images on screen in layer order) and an offline checker compares every record with the model 'fold arrivals in order over the longest finished prefix, newer image removes older ones it contains'. (loader) .ans files with k<=3 sixel sequences are loaded with Buffer::from_bytes while a helper thread releases the held decodes 0 or 120 ms apart in every order: the loaded picture must hold exactly the images of the model and no decode may be left in the queue. distinct_nontrivial = distinct (class, order, polls) schedules plus distinct (width,height,raster,newline) payload outcomes"
+        "(payload) seeded sixel payloads over data characters, '!' repeats <= 500, '$', '-', '#' selects and RGB/HLS definitions, raster attributes smaller/equal/larger than the data, rows of unequal length: Sixel::parse_from must give picture_data.len()==width*height*4, and with a 4-parameter raster the declared height and (when no drawn pixel lies beyond it) width; with a 3-parameter raster the one declared extent must be honoured as height (the engine's reading) or as minimum width (the DEC manual's). (schedule) k<=4 real DCS sixel sequences are fed through the real ANSI parser; every decode thread blocks in the gate hook; for every completion order (k!) x every placement of update_sixel_threads polls (2^k) x 18 geometry classes (two of them with images of other pixel aspects than 1:1 - the renderer does not stretch them, what is on the screen is the pixel rectangle) - in every third schedule the last sequences arrive only after the first release has finished - the harness releases one decode at a time, waits for is_finished, optionally polls (on a helper thread; all decoders it could wait for are held by the harness, so not returning within 6 s but returning once the gates open = blocked; after 3 blocked polls a worker skips its remaining schedules), records (step, released, polled, result, queue length, images on screen in layer order) and an offline checker compares every record with the model 'fold arrivals in order over the longest finished prefix, newer image removes older ones it contains'. (loader) .ans files with k<=3 sixel sequences are loaded with Buffer::from_bytes while a helper thread releases the held decodes 0 or 120 ms apart in every order: the loaded picture must hold exactly the images of the model and no decode may be left in the queue. distinct_nontrivial = distinct (class, order, polls) schedules plus distinct (width,height,raster,newline) payload outcomes"
     }
     fn meta(&self, ctx: &Ctx) -> Value {
         json!({"floor_evaluations": 2000, "floor_distinct": ctx.tier.pick(500u64, 3000u64), "watchdog_s": 120,
